@@ -453,7 +453,10 @@ func c17Shapes(kind string) []string {
 		return []string{"scalar-string", "map"}
 	case "strmap":
 		return []string{"scalar-string", "list"}
-	case "bool", "int", "time":
+	case "int":
+		// a number written as a string (quoted): if the parser takes it, the schema must
+		return []string{"list", "map", "octal-string", "octal-o-string", "numeric-string"}
+	case "bool", "time":
 		return []string{"list", "map"}
 	}
 	return nil
@@ -535,8 +538,9 @@ var c17Enums = []struct {
 	format string
 }{
 	{[]string{"contents", "[]", "type"}, []string{"", "file", "config", "config|noreplace", "config|missingok", "dir", "symlink", "tree", "ghost", "doc", "licence", "license", "readme"}, "rpm"},
-	{[]string{"deb", "compression"}, []string{"gzip", "xz", "zstd", "none"}, "deb"},
-	{[]string{"rpm", "compression"}, []string{"gzip", "lzma", "xz", "zstd", "gzip:9", "gzip:-1", "zstd:fastest", "zstd:3"}, "rpm"},
+	// documented values first, then candidates a packager might also take (a value that does not build is not judged)
+	{[]string{"deb", "compression"}, []string{"gzip", "xz", "zstd", "none", "gzip:9", "gzip:-1", "zstd:19", "zstd:3", "zstd:fastest", "xz:6", "none:0", "GZIP", "Zstd", "gz", "bzip2"}, "deb"},
+	{[]string{"rpm", "compression"}, []string{"gzip", "lzma", "xz", "zstd", "gzip:9", "gzip:-1", "zstd:fastest", "zstd:3", "zstd:best", "zstd:default", "xz:6", "lzma:5", "gzip:0", "GZIP", "none", "bzip2"}, "rpm"},
 	{[]string{"deb", "signature", "method"}, []string{"debsign", "dpkg-sig"}, "deb"},
 	{[]string{"deb", "signature", "type"}, []string{"origin", "maint", "archive"}, "deb"},
 	{[]string{"version_schema"}, []string{"semver", "none"}, "deb"},
@@ -964,6 +968,10 @@ func checkC17(env *engine.Env, ci any) engine.Outcome {
 			val = nil
 		case "numeric-string":
 			val = "7"
+		case "octal-string":
+			val = "0755"
+		case "octal-o-string":
+			val = "0o700"
 		}
 		d := docWith(c17Base(), c.Path, val)
 		if len(c.Path) > 1 && c.Path[0] == "contents" && c.Path[len(c.Path)-1] != "dst" {
